@@ -42,7 +42,26 @@ def distinct_sample(rng, pool, k):
     return rng.sample(pool, k)
 
 
-def gen_base(rng, tier, regime=None, nd=None, with_subs=None, ctype=None):
+INT_DTYPES = {"int": int, "int64big": np.int64, "int32": np.int32, "int8": np.int8}
+
+
+def gen_int_vals(rng, dtype, count):
+    """integer data at the limits of the type (the most negative value is left out: -v would wrap);
+    int64big: magnitudes 2**53 .. 2**62, not representable in float64"""
+    out = []
+    for i in range(count):
+        sgn = rng.choice([1, -1])
+        if dtype == "int64big":
+            v = sgn * (2 ** rng.randint(53, 62) + 2 * rng.randint(1, 10 ** 6) + 1) if i % 4 else sgn * (2 ** 63 - 1 - i)
+        elif dtype == "int32":
+            v = sgn * (2 ** 31 - 1 - rng.randint(0, 1000)) if i % 3 else rng.randint(-10 ** 6, 10 ** 6)
+        else:  # int8
+            v = sgn * (127 - rng.randint(0, 5)) if i % 3 == 0 else rng.randint(-127, 127)
+        out.append(v)
+    return out
+
+
+def gen_base(rng, tier, regime=None, nd=None, with_subs=None, ctype=None, dtype=None, nvdim=None):
     """a field configuration: anisotropic mesh (pairwise distinct n and cells), non-uniform data.
     ctype: how corner coordinates are handed to Region: 'float' | 'int' (Python ints) |
     'int64' (integer numpy arrays) - integer-typed regions keep an integer pmin/pmax dtype"""
@@ -91,16 +110,18 @@ def gen_base(rng, tier, regime=None, nd=None, with_subs=None, ctype=None):
                 slo = [l if i == 0 else l + i * ci for l, i, ci in zip(flo, a, c)]
                 shi = [h if i == k else l + i * ci for l, h, i, k, ci in zip(flo, fhi, b, n, c)]
             subs.append([name, [S(x) for x in slo], [S(x) for x in shi]])
-    nvdim = rng.choice([1, 1, 2, 3, 3, 4] if nd != 3 else [1, 2, 3, 3, 3, 4])
-    dtype = rng.choice(["float", "float", "float", "int"])
+    nvdim = nvdim or rng.choice([1, 1, 2, 3, 3, 4] if nd != 3 else [1, 2, 3, 3, 3, 4])
+    dtype = dtype or rng.choice(["float"] * 6 + ["int", "int", "int64big", "int32", "int8"])
     ncell = math.prod(n)
     # non-uniform, pairwise distinct data; magnitudes differ by orders (an inexact cos/sin
     # residue followed by an integer cast would show)
     pool = rng.sample(range(-5000, 5000), ncell * nvdim)
     if dtype == "float":
         vals = [F(v, rng.choice([1, 1, 2, 8])) for v in pool]
-    else:
+    elif dtype == "int":
         vals = [F(v if i % 3 else (v % 7) - 3) for i, v in enumerate(pool)]
+    else:
+        vals = [F(v) for v in gen_int_vals(rng, dtype, ncell * nvdim)]
     pm = rng.choice([0.0, 0.2, 0.5])
     valid = [rng.random() >= pm for _ in range(ncell)]
     vdims = None
@@ -125,6 +146,20 @@ def gen_base(rng, tier, regime=None, nd=None, with_subs=None, ctype=None):
                 squeeze=bool(nvdim == 1 and rng.random() < 0.6),
                 ctype=ctype, sub_ctype=(ctype if (ctype == "float" or rng.random() < 0.6)
                                       else rng.choice(["float", "int", "int64"])))
+    # the caller may build the subregion dict from SHARED Region objects: the same object under two
+    # names, the mesh region itself as a subregion, or the subregion dict of another mesh
+    base["sub_share"] = None
+    r_ = rng.random()
+    if subs and r_ < 0.15:
+        base["sub_share"] = "twice"
+        base["subs"] = subs + [[subs[0][0] + "_alias", subs[0][1], subs[0][2]]]
+        base["sub_ctype"] = ctype
+    elif r_ < 0.25:
+        base["sub_share"] = "mesh-region"
+        base["subs"] = subs + [["total", base["pmin"], base["pmax"]]]
+        base["sub_ctype"] = ctype
+    elif subs and r_ < 0.4:
+        base["sub_share"] = "other-mesh"
     if base["squeeze"]:
         # only the array setter keeps the caller's buffer (the constructor copies once more)
         if rng.random() < 0.8:
@@ -293,9 +328,179 @@ def make_case(rng, base, level, inplace, a, b, k, refkind, mapkind, ktype=None):
     return c
 
 
-def generate(rng, tier):
+def pick(rng, pred, **kw):
+    """the first generated configuration that satisfies pred (deterministic for a fixed rng)"""
+    for _ in range(2000):
+        base = gen_base(rng, "quick", **kw)
+        if pred(base):
+            return base
+    raise RuntimeError("directed core: no configuration found")
+
+
+def sub_offcentre(base):
+    lo, hi = [F(x) for x in base["pmin"]], [F(x) for x in base["pmax"]]
+    ctr = [(l + h) / 2 for l, h in zip(lo, hi)]
+    return any([(F(l) + F(h)) / 2 for l, h in zip(s_[1], s_[2])] != ctr for s_ in base["subs"])
+
+
+def directed_core():
+    """Directed cases, identical in every run, tier and seed (fixed Random(424242)): one small group per
+    mechanism that a seeded change of rounds a-e (or a coordinator follow-up) exercised."""
+    import random
+    R = random.Random(424242)
     cases = []
-    nbase = 70 if tier == "quick" else 600
+
+    def add(tag, base, level, inplace, a, b, k, refkind="none", mapkind="perm", ktype="int", **over):
+        base = dict(base)
+        pre = {kk: over.pop(kk) for kk in list(over) if kk in base}
+        base.update(pre)
+        c = make_case(R, base, level, inplace, a, b, k, refkind, mapkind, ktype=ktype)
+        c.update(over)
+        c["core"] = tag
+        cases.append(c)
+        return c
+
+    def axes(base):
+        d = eff_dims(base)
+        return d[0], d[1]
+    plain = dict(sub_share=None)
+    # a1 - in-place odd turn, different units on the two axes
+    base = pick(R, lambda b_: True, nd=3)
+    base["units"] = ["nm", "um", "m"]
+    a, b = axes(base)
+    for level in ("region", "mesh", "field"):
+        for k in (1, -1, 3):
+            add("a1", base, level, True, a, b, k)
+    # a2 - mapping dict written in another order than vdims
+    base = pick(R, lambda b_: b_["vdims"] is not None, nd=3, nvdim=3, regime="exact")
+    a, b = axes(base)
+    for inplace in (False, True):
+        for k in (1, 2, -1):
+            c = add("a2", base, "field", inplace, a, b, k)
+            vds = eff_vdims(base)
+            c["vmap"] = sorted(c["vmap"], key=lambda p_: -vds.index(p_[0]))
+    # a3 / c3 - subregions off the mesh centre, default reference, in place and copying, odd and half turns
+    base = pick(R, lambda b_: b_["subs"] and sub_offcentre(b_), nd=2, with_subs=True, regime="exact")
+    a, b = axes(base)
+    for level in ("mesh", "field"):
+        for inplace in (True, False):
+            for k in (1, 2, -2, 6, 3):
+                add("a3-c3", base, level, inplace, a, b, k, "none", **plain)
+    # b1 - copying form with a non-default mapping (the oracle turns the copy back)
+    for mk in ("perm", "partial"):
+        base = pick(R, lambda b_: b_["vdims"] is not None, nd=3, nvdim=2, regime="exact")
+        a, b = axes(base)
+        for k in (1, 3):
+            add("b1", base, "field", False, b, a, k, "inside", mk)
+    # b2 - integer-typed corners, fractional explicit reference; odd-parity edges about the default centre
+    for ct in ("int", "int64"):
+        base = pick(R, lambda b_: True, nd=2, ctype=ct)
+        a, b = axes(base)
+        for level in ("region", "mesh", "field"):
+            for inplace in (False, True):
+                c = add("b2", base, level, inplace, a, b, 1, "inside", ref_num="float")
+                c["ref"] = [S(F(x) + F(1, 2)) for x in base["pmin"]]
+                c["refkind"] = "inside"
+                add("b2", base, level, inplace, a, b, 3, "none")
+    base = pick(R, lambda b_: (F(b_["pmax"][0]) - F(b_["pmin"][0]) + F(b_["pmax"][1]) - F(b_["pmin"][1])) % 2 == 1,
+                nd=2, ctype="int")
+    a, b = axes(base)
+    for level in ("region", "mesh", "field"):
+        add("b2-parity", base, level, False, a, b, 1, "none")
+        add("b2-parity", base, level, True, a, b, -1, "none")
+    # b3 / e2 - integer-typed vector fields: small values of very different size, values beyond 2**53,
+    # int32 / int8 at their limits
+    for dt in ("int", "int64big", "int32", "int8"):
+        base = pick(R, lambda b_: True, nd=2, nvdim=3 if dt != "int" else 2, dtype=dt, regime="exact")
+        a, b = axes(base)
+        for inplace in (False, True):
+            for k in (1, 2, 3, -1):
+                add("b3-e2", base, "field", inplace, a, b, k)
+    # c1 - unmapped vector field, whole number of full turns: still refused
+    for mk in ("missing", "empty"):
+        base = pick(R, lambda b_: b_["vdims"] is not None, nd=2, nvdim=3, regime="exact")
+        a, b = axes(base)
+        for k in (0, 4, -4, 8):
+            add("c1", base, "field", k % 8 == 0, a, b, k, "none", mk)
+    # c2 - three quarter turns about an off-centre reference
+    base = pick(R, lambda b_: b_["subs"] and sub_offcentre(b_), nd=3, with_subs=True, regime="exact")
+    a, b = axes(base)
+    for level in ("region", "mesh", "field"):
+        for k in (3, -1, 7):
+            add("c2", base, level, k == 7, a, b, k, "corner", **plain)
+            if level != "region":
+                add("c2", base, level, k == 7, a, b, k, "none", **plain)
+    # d1 - half turn in place, validity mask not symmetric under the half turn
+    def asym(b_):
+        m_ = np.array(b_["valid"]).reshape(*b_["n"])
+        return not np.array_equal(m_, np.rot90(m_, 2, axes=(0, 1)))
+    base = pick(R, asym, nd=2, regime="exact")
+    a, b = axes(base)
+    for k in (2, -2, 6):
+        add("d1", base, "field", True, a, b, k, mapkind="perm" if base["nvdim"] > 1 else "default")
+    # d2 - user-chosen dimension names, copying form
+    base = pick(R, lambda b_: True, nd=3, regime="exact")
+    base["dims"] = ["r", "t", "w"]
+    for level in ("region", "mesh", "field"):
+        add("d2", base, level, False, "t", "w", 1, "near")
+    # d3 - reference point spelled as a numpy array
+    base = pick(R, lambda b_: True, nd=2, regime="exact")
+    a, b = axes(base)
+    for level in ("region", "mesh", "field"):
+        for inplace in (False, True):
+            add("d3", base, level, inplace, a, b, 1, "near", ref_repr="ndarray")
+    # e1 - subregion dicts built from shared Region objects, in-place turns that are no full turns
+    for share in ("twice", "mesh-region", "other-mesh"):
+        base = pick(R, lambda b_: b_.get("sub_share") == share and sub_offcentre(b_), nd=2, with_subs=True,
+                    regime="exact")
+        base["units"] = ["nm", "um"]
+        a, b = axes(base)
+        for level in ("mesh", "field"):
+            for k in (1, 2, 3):
+                add("e1", base, level, True, a, b, k, "near")
+                add("e1", base, level, k == 2, a, b, k, "none")
+    # e3 - k spelled as a numpy integer (field, mesh and region)
+    base = pick(R, lambda b_: True, nd=2, regime="exact")
+    a, b = axes(base)
+    for kt, k in (("int64", 5), ("int32", -1), ("uint8", 255), ("int16", 2), ("uint64", 3), ("int8", -3)):
+        for level in ("field", "mesh", "region"):
+            add("e3", base, level, k % 2 == 0, a, b, k, ktype=kt)
+    # non-integer counts are refused
+    for bad in ("float", "str", "none", "npfloat", "half"):
+        c = add("k-bad", base, R.choice(["region", "mesh", "field"]), False, a, b, 1)
+        c.update(k_bad=bad, k_bool=False, bad="k-" + bad)
+    # memory layout: scalar field without a component axis, assigned through the setter
+    for lay in ("F", "strided", "revview", "readonly"):
+        base = pick(R, lambda b_: True, nd=2, nvdim=1, regime="exact")
+        base.update(squeeze=True, assign="setter", layout_vals=lay, layout_valid=lay)
+        a, b = axes(base)
+        for k in (1, 2):
+            add("layout", base, "field", k == 2, a, b, k, mapkind="default")
+    # very large counts on a mesh with subregions, far reference
+    base = pick(R, lambda b_: b_["subs"], nd=2, with_subs=True, regime="exact")
+    a, b = axes(base)
+    for k in BIG_K:
+        for level in ("field", "mesh", "region"):
+            add("big-k", base, level, k % 2 == 0, a, b, k, "far", **plain)
+    # periodicity of an in-plane axis, odd and even turns, both forms
+    base = pick(R, lambda b_: b_["dims"] is None, nd=3, nvdim=1, regime="exact")
+    for bc in ("x", "y", "xy", "zx", "z", "neumann"):
+        for level in ("mesh", "field"):
+            for k in (1, 2):
+                c = add("bc", base, level, k == 1, "x", "y", k, "none", mapkind="default")
+                c["bc"] = bc
+    return cases
+
+
+_CORE = None
+
+
+def generate(rng, tier):
+    global _CORE
+    if _CORE is None:
+        _CORE = directed_core()
+    cases = [dict(c) for c in _CORE]
+    nbase = 60 if tier == "quick" else 500
     mapkinds = ["default", "perm", "perm", "partial", "partial", "missing", "empty"]
     refkinds = ["none", "none", "inside", "corner", "near", "far"]
     for bi in range(nbase):
@@ -363,9 +568,9 @@ def generate(rng, tier):
             c["k_type"] = "int"
             c["k_bool"] = False
         elif bad == "ref-short":
-            c["ref"] = c["ref"][:-1]
+            c["ref"] = list(c["ref"] or c["pmin"])[:-1]
         else:
-            c["ref"] = c["ref"] + [S(1)]
+            c["ref"] = list(c["ref"] or c["pmin"]) + [S(1)]
         c["bad"] = bad
         cases.append(c)
     return cases
@@ -413,19 +618,37 @@ def build_region(c, pmin=None, pmax=None, ctype=None):
                      dims=as_repr(c["dims"], c.get("dims_repr")), units=as_repr(c["units"], c.get("units_repr")))
 
 
-def build_mesh(c):
+def build_mesh(c, keep=None):
+    """keep: dict that receives the caller's Region objects handed to the mesh"""
     r = build_region(c)
-    subs = {name: build_region(c, lo, hi, ctype=c.get("sub_ctype", "float")) for name, lo, hi in c["subs"]}
-    return df.Mesh(region=r, n=c["n"], bc=c.get("bc", ""), subregions=subs)
+    share = c.get("sub_share")
+    subs = {}
+    for name, lo, hi in c["subs"]:
+        if share == "mesh-region" and name == "total":
+            subs[name] = r                                  # the mesh's own region object
+        elif share == "twice" and name.endswith("_alias"):
+            subs[name] = subs[name[: -len("_alias")]]       # the same object under two names
+        else:
+            subs[name] = build_region(c, lo, hi, ctype=c.get("sub_ctype", "float"))
+    if share == "other-mesh":
+        other = df.Mesh(region=build_region(c), n=c["n"], subregions=subs)
+        subs = other.subregions                              # the dict (and objects) of another mesh
+        if keep is not None:
+            keep["other"] = other
+    m = df.Mesh(region=r, n=c["n"], bc=c.get("bc", ""), subregions=subs)
+    if keep is not None:
+        keep["callers"] = list(subs.values())
+        keep["mesh"] = m
+    return m
 
 
-def build_field(c):
-    m = build_mesh(c)
-    dt = float if c["dtype"] == "float" else int
+def build_field(c, keep=None):
+    m = build_mesh(c, keep)
+    dt = float if c["dtype"] == "float" else INT_DTYPES[c["dtype"]]
     if dt is float:
         arr = np.array([fl(x) for x in c["vals"]], dtype=float).reshape(*c["n"], c["nvdim"])
     else:
-        arr = np.array([int(F(x)) for x in c["vals"]], dtype=int).reshape(*c["n"], c["nvdim"])
+        arr = np.array([int(F(x)) for x in c["vals"]], dtype=dt).reshape(*c["n"], c["nvdim"])
     valid = np.array(c["valid"], dtype=bool).reshape(*c["n"])
     vm = None if c.get("vmap") is None else {v: t for v, t in c["vmap"]}
     # same values, other memory layout / flags (Fortran order, strided view, read-only, negative strides)
@@ -444,9 +667,16 @@ def build_field(c):
                     dtype=dt, unit="A/m")
 
 
-def build(c, level=None):
+def build(c, level=None, keep=None):
     level = level or c["level"]
-    return {"region": build_region, "mesh": build_mesh, "field": build_field}[level](c)
+    if level == "region":
+        return build_region(c)
+    return {"mesh": build_mesh, "field": build_field}[level](c, keep)
+
+
+def snap_region(r):
+    return ([F(float(x)) for x in r.pmin], [F(float(x)) for x in r.pmax], [str(u) for u in r.units],
+            [str(d) for d in r.dims])
 
 
 def spelled_k(c):
@@ -698,8 +928,21 @@ def run_case(c):
     # the call under test (copying form always; in-place form on a fresh, equal object)
     st_c, res_c = attempt(lambda: call(src, c, False))
     o0_after = observe(src, level)
-    src_ip = build(c)
+    keep = {}
+    src_ip = build(c, keep=keep)
+    callers = []
+    if keep.get("mesh") is not None:
+        m_ip = keep["mesh"]
+        stored = list(m_ip.subregions.values())
+        # the mesh keeps its own Region objects: none of them is an object of the caller, none occurs twice
+        if any(sv is cv for sv in stored for cv in keep["callers"]) or any(sv is m_ip.region for sv in stored) \
+                or len({id(sv) for sv in stored}) != len(stored):
+            viol.append("subregions-own-objects")
+        callers = [(cv, snap_region(cv)) for cv in keep["callers"] if cv is not m_ip.region]
     st_i, res_i = attempt(lambda: call(src_ip, c, True))
+    # an in-place turn of the mesh / field must not move the Region objects of the caller
+    if any(snap_region(cv) != before for cv, before in callers):
+        viol.append("caller-regions-unchanged")
     st, res = (st_i, res_i) if c["inplace"] else (st_c, res_c)
     # k given as True / False: Python counts them as the integers 1 / 0 and so does the code; an
     # implementation that refused Booleans would still satisfy the property (unspecified choice)
@@ -836,7 +1079,8 @@ def stats(records):
         out["by_level"][c["level"]] = out["by_level"].get(c["level"], 0) + 1
         out["by_kmod4"][str(c["k"] % 4)] = out["by_kmod4"].get(str(c["k"] % 4), 0) + 1
         out["regimes"][c["regime"]] = out["regimes"].get(c["regime"], 0) + 1
-        out["int_dtype"] += int(c["level"] == "field" and c["dtype"] == "int")
+        out["int_dtype"] += int(c["level"] == "field" and c["dtype"] != "float")
+        out["int_beyond_2^53"] = out.get("int_beyond_2^53", 0) + int(c["level"] == "field" and c["dtype"] == "int64big")
         out["with_subregions"] += int(bool(c["subs"]) and c["level"] != "region")
         out["inplace"] += int(c["inplace"])
         out["negative_k"] += int(c["k"] < 0)
@@ -847,6 +1091,9 @@ def stats(records):
             c["level"] != "region" and c.get("bc", "") not in ("", "neumann", "dirichlet")
             and (c["a"] in c["bc"] or c["b"] in c["bc"]))
         out["bc_keyword"] = out.get("bc_keyword", 0) + int(c.get("bc", "") in ("neumann", "dirichlet"))
+        out["shared_subregion_objects"] = out.get("shared_subregion_objects", 0) + int(
+            c["level"] != "region" and bool(c.get("sub_share")))
+        out["core"] = out.get("core", 0) + int(bool(c.get("core")))
         out["directed_big_k"] = out.get("directed_big_k", 0) + int(c.get("directed") == "big-k")
         out["big_k_with_subregions"] = out.get("big_k_with_subregions", 0) + int(
             abs(c["k"]) >= 250 and bool(c["subs"]) and c["level"] != "region")
